@@ -116,14 +116,16 @@ macro_rules! impl_datatype_hash {
                         2u8.hash(state);
                         (v.0 as f64).to_bits().hash(state);
                     }
-                    // 0.0 == -0.0, so both hash as +0.0
+                    // 0.0 == -0.0, so both hash as +0.0; every NaN equals every NaN, so they share one bit pattern
                     Self::Float(v) => {
                         2u8.hash(state);
-                        (v.0 as f64 + 0.0).to_bits().hash(state);
+                        let f = if v.0.is_nan() { f64::NAN } else { v.0 as f64 + 0.0 };
+                        f.to_bits().hash(state);
                     }
                     Self::Double(v) => {
                         2u8.hash(state);
-                        (v.0 + 0.0).to_bits().hash(state);
+                        let f = if v.0.is_nan() { f64::NAN } else { v.0 + 0.0 };
+                        f.to_bits().hash(state);
                     }
                     Self::Blob(b) => {
                         3u8.hash(state);
